@@ -115,6 +115,14 @@ func checkLoopEvents(evs []eval.Event, nodeCount int) (string, bool) {
 			return fmt.Sprintf("LOOP event carries %T", ev.Data), false
 		}
 		loops++
+		if !raceBuild && prev >= 0 {
+			// reach probe: a jump over more than 127 / 255 program positions
+			if gap := int(d.CurtIdx) - int(prev); gap > 255 {
+				longJumps[1]++
+			} else if gap > 127 {
+				longJumps[0]++
+			}
+		}
 		if d.CurtIdx <= prev {
 			return fmt.Sprintf("LOOP position %d after %d", d.CurtIdx, prev), false
 		}
@@ -125,6 +133,10 @@ func checkLoopEvents(evs []eval.Event, nodeCount int) (string, bool) {
 	}
 	return "", true
 }
+
+// longJumps counts LOOP position gaps over 127 and over 255 (reach probes,
+// copied into the worker's Stats at the end; not touched in the race build).
+var longJumps [2]int64
 
 func pathHash(out *Outcome) uint64 {
 	h := uint64(0xcbf29ce484222325)
